@@ -570,8 +570,26 @@ package composite
 //@   where $obj != refs
 //@   assert [C01:references-persisted-before-any-composed-resource-is-applied] refsPersisted && gcDone
 //@   assert [C03:apply-only-after-a-clean-pipeline] observedOK && pipelineOK && !sawFatal
+// C05: the status that is applied to the XR is built from the desired XR the functions returned.
+// Functions speak about conditions through the conditions of their response only (system types
+// are refused there); whatever status.conditions their desired XR carries is deleted from the
+// object before it is patched - otherwise a function writes Ready/Synced directly.
+//@ ghost loaded bool = false
+//@ ghost conditionsStripped bool = false
+//@ let $paved = result fieldpath.Pave
+//@ site composite.FromStruct($into, $from) as load-desired-xr
+//@   where $into == xr
+//@   update loaded = true
+//@   update conditionsStripped = false
+//@ optional site fieldpath.Pave($m) as pave-xr
+//@   where loaded
+//@   assert [C05:conditions-are-deleted-from-the-object-that-is-patched] $m == xr.Object
+//@ optional site (*fieldpath.Paved).DeleteField($p, $path) as strip-conditions
+//@   where loaded && $path == "status.conditions"
+//@   update conditionsStripped = $p == $paved
 //@ site (client.SubResourceWriter).Patch(_, _, $obj, $patch, $opts...)
 //@   assert [C03:status-only-after-a-clean-pipeline] observedOK && pipelineOK && !sawFatal && refsPersisted
+//@   assert [C05:functions-cannot-write-conditions-through-the-desired-xr-status] $obj == xr && loaded && conditionsStripped
 //@ site (*v1.State).GetResources($s)
 //@   assert [C04:final-desired-state-is-the-last-steps-output] steps > 0 ==> (($prevRsp != nil ==> $s == $prevRsp.Desired) && ($prevRsp == nil ==> $s == nil))
 //@ site (names.NameGenerator).GenerateName(_, _, $cd)
